@@ -711,7 +711,7 @@ def namespace(**extra):
                  sum=np_sum, count_nonzero=lambda x: sum(1 for v in asx(x).flat if v), amax=lambda x, axis=None: np_reduce(x, max, axis), max=lambda x, axis=None: np_reduce(x, max, axis),
                  amin=lambda x, axis=None: np_reduce(x, min, axis), min=lambda x, axis=None: np_reduce(x, min, axis), abs=lambda x: abs(asx(x)) if not isinstance(x, (int, float, Fr)) else abs(_num(x)),
                  absolute=lambda x: abs(asx(x)), argsort=np_argsort, diag=np_diag, diagonal=lambda x: np_diag(x), diff=np_diff, concatenate=np_concatenate, hstack=np_hstack, vstack=np_vstack,
-                 unique=np_unique, roll=np_roll, stack=np_stack, column_stack=lambda seq: np_concatenate([asx(p).reshape(-1, 1) if asx(p).ndim == 1 else asx(p) for p in seq], axis=1),
+                 unique=np_unique, roll=np_roll, outer=lambda a, b: XA([[x * y for y in asx(b).flat] for x in asx(a).flat]), stack=np_stack, column_stack=lambda seq: np_concatenate([asx(p).reshape(-1, 1) if asx(p).ndim == 1 else asx(p) for p in seq], axis=1),
                  ones=lambda s, *a, **k: _full(s, 1), zeros=lambda s, *a, **k: _full(s, 0), full=lambda s, v, *a, **k: _full(s, _num(v)), arange=lambda *a: XA(list(range(*[int(x) for x in a]))),
                  any=np_any, all=np_all, sqrt=np_sqrt, allclose=np_allclose, isclose=lambda a, b, **k: XA(shape=asx(a).shape, flat=[np_allclose(v, b, **k) for v in asx(a).flat]),
                  mean=lambda x, axis=None: asx(x).mean(axis), std=lambda x, axis=None: asx(x).std(axis), var=lambda x, axis=None: asx(x).var(axis), logical_not=lambda x: ~asx(x), logical_and=lambda a, b: asx(a) & asx(b), logical_or=lambda a, b: asx(a) | asx(b),
